@@ -130,7 +130,7 @@ def run(chk):
         try:
             Tv, Te = op.to_flavor_basis_tensor(qed)
         except Exception as e:
-            chk.fail(f"{tag}.no_exception", f"{type(e).__name__}: {e}", fn=fn, replay=rp)
+            chk.raised(f"{tag}.no_exception", e, fn=fn, replay=rp)
             return
         Sv, Se = spec_tensor(block, nf_in, nf_out, qed)
         for a in range(14):
@@ -151,7 +151,7 @@ def run(chk):
             try:
                 op = PhysicalOperator.ad_to_evol_map(om, nf, T.var("q2"), qed)
             except Exception as e:
-                chk.fail(f"{tag}.no_exception", f"{type(e).__name__}: {e}", fn=fn, replay=rp)
+                chk.raised(f"{tag}.no_exception", e, fn=fn, replay=rp)
                 continue
             block = {name: ops[lab] for name, lab in spec.items()}
             for q in range(nf + 1, 7):
@@ -170,7 +170,7 @@ def run(chk):
             try:
                 op = MatchingCondition.split_ad_to_evol_map(om, nf, T.var("q2"), qed)
             except Exception as e:
-                chk.fail(f"{tag}.no_exception", f"{type(e).__name__}: {e}", fn=fn, replay=rp)
+                chk.raised(f"{tag}.no_exception", e, fn=fn, replay=rp)
                 continue
             h = QN[nf]
             block = {"S.S": ops[(100, 100)], "S.g": ops[(100, 21)], "g.S": ops[(21, 100)], "g.g": ops[(21, 21)], "V.V": ops[(200, 200)],
